@@ -10,6 +10,7 @@ S      : quadrature of the defining integral (scipy.integrate.quad on the smooth
          two-point / three-point local interpolants; unprojected basis functions vs their documented formulas
 """
 import json
+import os
 
 import numpy as np
 from scipy.integrate import quad
@@ -25,7 +26,7 @@ def abel_quad(f, x, rmax, breaks=()):
         return 0.0
     zmax = np.sqrt(rmax ** 2 - x ** 2)
     pts = sorted({np.sqrt(b ** 2 - x ** 2) for b in breaks if x < b < rmax})
-    val, err = quad(lambda z: f(np.sqrt(x * x + z * z)), 0, zmax, points=pts or None, limit=200, epsabs=1e-13, epsrel=1e-12)
+    val, err = quad(lambda z: f(np.sqrt(x * x + z * z)), 0, zmax, points=pts or None, limit=max(200, 2 * len(pts) + 50), epsabs=1e-13, epsrel=1e-12)
     return 2 * val
 
 
@@ -158,7 +159,57 @@ def oracle(ck, tier, deep):
         if np.abs(Dop @ W - np.eye(n)).max() > 1e-8 * n:
             ck.violation(dict(site="onion_peeling", clause="operator=inverse-of-shell-projection"), dict(n=n),
                          f"onion_peeling D times the shell-projection matrix differs from the identity by {np.abs(Dop @ W - np.eye(n)).max():.3g}")
-    ck.sample(dict(suite="S", families=["daun0-3", "basex", "rbasex", "two_point", "three_point", "onion_peeling"]))
+    # ---------------- the same arrays as users obtain them: through get_bs_cached, in a session that has already served another
+    # request (other method / larger size in memory or on disk).  The generators above are decided against the integrals; what
+    # get_bs_cached hands out must be those arrays (Dasch and Daun degree ≤ 2 operators for n are leading blocks of larger ones).
+    import tempfile
+    scratch = os.environ.get("VERIF_SCRATCH")
+    gens = {"two_point": dasch._bs_two_point, "three_point": dasch._bs_three_point, "onion_peeling": dasch._bs_onion_peeling}
+    for m1 in gens:
+        for m2 in gens:
+            for (n1, n2) in ((12, 12), (12, 9), (9, 12)):
+                if m1 == m2 and n1 == n2:
+                    continue
+                for use_dir in (False, True):
+                    d = tempfile.mkdtemp(prefix="c09_", dir=scratch) if use_dir else None
+                    dasch.cache_cleanup()
+                    ck.count(("S.cached", "dasch", m1, m2, n1, n2, use_dir), suite="S.get_bs_cached")
+                    try:
+                        quiet(dasch.get_bs_cached, m1, n1, basis_dir=d)
+                        if use_dir:
+                            dasch.cache_cleanup()
+                            quiet(dasch.get_bs_cached, m1, n1, basis_dir=d)
+                        got = np.array(quiet(dasch.get_bs_cached, m2, n2, basis_dir=d))
+                        want = quiet(gens[m2], n2)
+                    except Exception as e:
+                        ck.violation(dict(site=m2, clause="exception"), dict(first=[m1, n1], then=[m2, n2], basis_dir=use_dir), f"{type(e).__name__}: {e}")
+                        continue
+                    if got.shape != want.shape or np.abs(got - want).max() > 1e-12 * max(1.0, np.abs(want).max()):
+                        ck.violation(dict(site=m2, clause="get_bs_cached=generator"), dict(first=[m1, n1], then=[m2, n2], basis_dir=use_dir),
+                                     f"dasch.get_bs_cached({m2!r}, {n2}) after ({m1!r}, {n1}) is not the {m2} operator "
+                                     f"(off by {np.abs(got - want).max() if got.shape == want.shape else 'shape'})")
+    dasch.cache_cleanup()
+    for deg in (0, 1, 2, 3):
+        for (n1, n2) in ((12, 8), (8, 12), (12, 12)):
+            for mode in ("memory", "disk"):
+                d = tempfile.mkdtemp(prefix="c09_", dir=scratch) if mode == "disk" else None
+                daun.cache_cleanup()
+                ck.count(("S.cached", "daun", deg, n1, n2, mode), suite="S.get_bs_cached")
+                try:
+                    quiet(daun.get_bs_cached, n1, degree=deg, direction="forward", basis_dir=d)
+                    if mode == "disk":
+                        daun.cache_cleanup()         # the second request must be served from the file of the first
+                    got = np.array(quiet(daun.get_bs_cached, n2, degree=deg, direction="forward", basis_dir=d))
+                    want = quiet(daun._bs_daun, n2, deg)
+                except Exception as e:
+                    ck.violation(dict(site="daun", degree=deg, clause="exception"), dict(first=n1, then=n2, mode=mode), f"{type(e).__name__}: {e}")
+                    continue
+                if got.shape != want.shape or np.abs(got - want).max() > 1e-12 * max(1.0, np.abs(want).max()):
+                    ck.violation(dict(site="daun", degree=deg, clause="get_bs_cached=generator"), dict(first=n1, then=n2, degree=deg, mode=mode),
+                                 f"daun.get_bs_cached({n2}, degree={deg}) after a size-{n1} request ({mode}) is not the size-{n2} projected basis "
+                                 f"(off by {np.abs(got - want).max() if got.shape == want.shape else 'shape'})")
+    daun.cache_cleanup()
+    ck.sample(dict(suite="S", families=["daun0-3", "basex", "rbasex", "two_point", "three_point", "onion_peeling", "get_bs_cached histories"]))
 
 
 def run(tier):
